@@ -32,6 +32,7 @@ def run(ctx: Ctx) -> None:
     _memo.rule_paste_incomplete(ctx, ['graphiq/solvers/evolutionary_solver.py', 'graphiq/solvers/hybrid_solvers.py'])
     _memo.rule_negative_start(ctx, ['graphiq/solvers/evolutionary_solver.py', 'graphiq/solvers/hybrid_solvers.py'])
     _memo.rule_elim_no_pivot(ctx, ['graphiq/solvers/evolutionary_solver.py', 'graphiq/solvers/hybrid_solvers.py'])
+    _memo.rule_subject_drift(ctx, ['graphiq/solvers/evolutionary_solver.py', 'graphiq/solvers/hybrid_solvers.py'])
     solvers.rule_twoqubit(ctx)
     solvers.rule_emission_first(ctx)
     solvers.rule_move_filters(ctx)
